@@ -101,6 +101,7 @@ def models(tier):
     add("composite", fem.Hyperelastic(th.mooney_rivlin, C10=0.25, C01=0.5) & fem.Volumetric(bulk=4.0))
     add("tt.total_lagrange-svk", fem.MaterialAD(fem.total_lagrange(lambda F, mu, lmbda: _svk_S(F, mu, lmbda)), mu=1.0, lmbda=2.0)
         if hasattr(fem, "total_lagrange") else None)
+    add("tt.updated_lagrange-neohooke", fem.MaterialAD(fem.updated_lagrange(_nh_cauchy), mu=1.0, lmbda=2.0))
     add("tt.morph", fem.MaterialAD(tl.morph, p=[0.039, 0.371, 0.174, 2.41, 0.0094, 6.84, 5.65, 0.244], nstatevars=13),
         sv=lambda n: np.zeros((13, n, 1)), hyper=False, iso=False)
     return {k: v for k, v in M.items() if v["um"] is not None}
@@ -111,6 +112,15 @@ def _svk_S(F, mu, lmbda):
     C = F.T @ F
     E = (C - tm.base.eye(C)) / 2
     return 2 * mu * E + lmbda * tm.trace(E) * tm.base.eye(C)
+
+
+def _nh_cauchy(F, mu, lmbda):
+    """compressible Neo-Hookean Cauchy stress  (mu (b - 1) + lmbda ln(J) 1) / J  for the updated-Lagrange wrapper"""
+    import tensortrax.math as tm
+    J = tm.linalg.det(F)
+    b = F @ F.T
+    one = tm.base.eye(b)
+    return (mu * (b - one) + lmbda * tm.log(J) * one) / J
 
 
 def grad(m, F, sv):
@@ -276,7 +286,9 @@ def c11(out, a):
             rid = "isotropic-%s-r%d" % (name, k)
             if m["iso"] and out.want(rid):
                 Pr = grad(m, np.einsum("ij...,kj->ik...", F, Q), sv)
-                out.write({"id": rid, "kind": "isotropic", "nt": True, "q": int(qd), "N": [qi(row) for row in N], "tol": 8 * ts,
+                # the jax principal-stretch models perturb C by diag(0, -1e-4, 1e-4) before eigvalsh (documented regularisation): the
+                # perturbation is not isotropic and shifts the stress by up to 1e-4 * |tangent| (<= 40): 4e-3 absolute
+                out.write({"id": rid, "kind": "isotropic", "nt": True, "q": int(qd), "N": [qi(row) for row in N], "tol": 8 * ts * (16 if ts > 1 else 1),
                            "P": q(pt(P), S), "Pr": q(pt(Pr), S)})
         rid = "kirchhoff-" + name
         if out.want(rid):
